@@ -953,8 +953,36 @@ fn main() {
         }
     }
 
+    // ---- regression inputs: canonical inputs of findings that are no longer open (fixed in /repo); judged without masks
+    {
+        let open_replays: BTreeSet<PathBuf> = out.known.open.iter().map(|e| e.replay.clone()).collect();
+        let dir = vcore::verif_root().join("known").join("C12");
+        let mut files: Vec<PathBuf> = std::fs::read_dir(&dir).map(|rd| rd.flatten().map(|e| e.path()).collect()).unwrap_or_default();
+        files.sort();
+        let mut n = 0u64;
+        for f in files.iter().filter(|f| f.extension().is_some_and(|x| x == "json") && !open_replays.contains(*f)) {
+            if let Some(proj) = load_replay(f) {
+                // the command family named by the recorded signature is enough to see the recorded defect again
+                let sig = std::fs::read_to_string(f).ok().and_then(|t| serde_json::from_str::<Value>(&t).ok()).and_then(|v| v["signature"].as_str().map(|s| s.to_string())).unwrap_or_default();
+                let (cmp, _) = evaluate_only(&farm, &proj, &BTreeSet::new(), family_of(&sig), true);
+                n += 1;
+                ev.class("regression-input");
+                ev.case(Some(proj_hash(&proj)));
+                if let Some(w) = &cmp.infra {
+                    out.inconclusive(w);
+                }
+                for fl in &cmp.fails {
+                    if !out.is_known(&fl.key) {
+                        out.violation(&mut ev, &fl.key, "json", &replay_body(&proj, fl), &format!("regression input {}: {}", f.display(), fl.what));
+                    }
+                }
+            }
+        }
+        ev.set("regression_inputs_replayed", json!(n));
+    }
+
     // ---- generated projects
-    let n = args.flag("cases").and_then(|s| s.parse().ok()).unwrap_or(args.tier.pick(20usize, 1500usize));
+    let n = args.flag("cases").and_then(|s| s.parse().ok()).unwrap_or(args.tier.pick(16usize, 1500usize));
     let mut runner = vcore::gen::runner(args.subseed(12));
     let strat = spec_strategy();
     let mut trees = vcore::gen::batch(&strat, &mut runner, n);
